@@ -4,6 +4,8 @@ import (
 	"bytes"
 	"encoding/json"
 	"fmt"
+	"os"
+	"path/filepath"
 	"strings"
 
 	"verifharness/core"
@@ -17,6 +19,20 @@ func init() {
 type cliStreamCase struct {
 	Stream *gen.Stream `json:"stream"`
 	Args   []string    `json:"args"`
+	// UnsetTraceback: GOTRACEBACK unset (pp then prints its banner for single-goroutine dumps).
+	UnsetTraceback bool `json:"unset_traceback,omitempty"`
+	// FileArg: the input is passed as a file argument instead of stdin.
+	FileArg bool `json:"file_arg,omitempty"`
+}
+
+func (c *cliStreamCase) run(in []byte, args []string, tag string) ppResult {
+	if !c.FileArg {
+		return runPPEnv(in, c.UnsetTraceback, args...)
+	}
+	f := filepath.Join(os.Getenv("VERIF_WORK"), fmt.Sprintf("cli-%s-%x.txt", tag, core.Hash64(in)))
+	_ = os.WriteFile(f, in, 0o644)
+	defer os.Remove(f)
+	return runPPEnv(nil, c.UnsetTraceback, append(append([]string{}, args...), f)...)
 }
 
 // cliStreamEval: pp's stdout on the stream must be the stream with each dump
@@ -24,7 +40,7 @@ type cliStreamCase struct {
 func cliStreamEval(r *core.Run, c *cliStreamCase) {
 	in := c.Stream.Render()
 	args := append([]string{"-rebase=false"}, c.Args...)
-	res := runPP(in, nil, args...)
+	res := c.run(in, args, "s")
 	r.Eval(1)
 	report := func(key, what string) { r.Violation(key, what, "clistream", c) }
 	if res.TimedOut {
@@ -49,7 +65,7 @@ func cliStreamEval(r *core.Run, c *cliStreamCase) {
 			} else {
 				d = sg.Race.Render()
 			}
-			alone := runPP(d, nil, args...)
+			alone := c.run(d, args, "d")
 			r.Count("pp_runs", 1)
 			if alone.Exit != 0 || crashed(&alone) {
 				report("cli-dump-alone", fmt.Sprintf("pp exits %d on a single well-formed dump: %q", alone.Exit, b2s(alone.Stderr, 300)))
@@ -130,6 +146,8 @@ func runC02(r *core.Run) {
 		if i%3 == 1 {
 			c.Args = []string{"-aggressive"}
 		}
+		c.UnsetTraceback = i%4 == 2
+		c.FileArg = i%5 == 3
 		cliStreamEval(r, c)
 		r.Distinct(core.Hash64(c.Stream.Render()))
 	})
